@@ -244,10 +244,6 @@ def loud_but_empty(op, spec, q, db, err):
     kind = kind_of(spec)
     if not db and kind in ("sbt", "lca", "sql"):
         return True
-    if kind == "sql" and db and q.sc:
-        qd = [h for h in q.hashes if h <= min(x.mh for x in db)] if q.sc < db[0].sc else q.hashes
-        if not qd:
-            return True
     return False
 
 
@@ -499,9 +495,6 @@ def oracle_cli(idx, op, a, obs, sk, qi, case, bad):
             if not obs.startswith("exit"):
                 bad.append((idx, "C06:cli:coarser-jaccard-not-refused", f"`{line}`: {obs[:80]}"))
             _bump(STATS["cli_skipped"], "documented refusal (Jaccard, query coarser than an SBT / LCA database)")
-            return
-        if obs == "err ValueError" and not q.hashes and any(k == "sql" and e for k, e in groups):
-            _bump(STATS["cli_skipped"], "empty query against a .sqldb: ValueError from max() (nothing can match)")
             return
         if obs == "err ValueError" and _sql_query_empty(q, groups):
             bad.append((idx, "C06:sqlite-empty-downsampled-query-raises",
